@@ -231,3 +231,8 @@ def run(ck, prog, ctx):
                     qa = pv.of_operand(new, s.rv["ops"][i])
             if qa is not None:
                 ck.ob("ROLE", "filter_new/field", 2 in params_of(qa, new.id), "OmimDiseaseFilter::new stores its `query` parameter in the query field", where=new.where())
+
+    # ---- the arena's id iterator answer each protocol method with the inner iterator's SAME method
+    ck.rule("SIBLING", "an iterator wrapper's next / next_back / len / size_hint delegates to the same method of the inner iterator (DESIGN 3.15)")
+    from engines import check_iterator_delegations
+    check_iterator_delegations(ck, "SIBLING", prog, r"^src/ontology/termarena\.rs$")
